@@ -169,6 +169,9 @@ def main(argv: list[str] | None = None) -> int:
     ap.add_argument("--no-evidence", action="store_true")
     args = ap.parse_args(argv)
 
+    import warnings
+
+    warnings.simplefilter("ignore")
     prop = args.prop.upper()
     tier = args.tier if args.tier in ("quick", "thorough") else "quick"
     seed = args.seed if args.seed is not None else int(os.environ.get("VERIF_SEED", "0") or 0)
